@@ -7,7 +7,8 @@
 (* prints <<"BAD", line, run, ev, clause>> and is counted.                 *)
 (*                                                                         *)
 (* Metric event: name, a, b (integers: labels; targets in units of 1/U;    *)
-(*   dense ranks of the scores for AUC), b1/b2 (beta), S, status in        *)
+(*   dense ranks of the scores for AUC), b1/b2 (beta), S, e and off (the   *)
+(*   library was fed (a/U + off) * 2^e; see Metrics.tla), status in        *)
 (*   {ok, panic}, fin (finite and in range), out = round(v * 2^S).         *)
 (*   Decision table, first matching row:                                   *)
 (*     lengths differ, pairwise metric     must be "panic"   (LengthMismatch)*)
@@ -33,7 +34,7 @@ Hit(h, name) == [h EXCEPT ![name] = @ + 1]
 HitIf(h, cond, name) == IF cond THEN Hit(h, name) ELSE h
 MetricNames == {"accuracy", "precision", "recall", "fbeta", "auc", "mse", "mae", "r2"}
 HitNames == MetricNames \cup
-            {"LengthMismatch", "Unconstrained", "AucTies", "AucConstant", "SinglePosOrNeg", "Scaled",
+            {"LengthMismatch", "Unconstrained", "AucTies", "AucConstant", "SinglePosOrNeg", "Scaled", "Offset",
              "Expect", "Drift", "HCV", "HcvSingleClass", "HcvPure", "HcvMixed", "HcvDyadic",
              "HcvDyadicMixed", "HcvIndependent", "HcvIdentical", "ArgSort", "ArgSortLong"}
 
@@ -78,7 +79,8 @@ StepMetric(e) ==
         h4 == HitIf(h3, con /\ e.name \in {"auc", "precision", "recall", "fbeta"} /\ Len(e.a) > 2 /\
                         (Cardinality(Pos(e.a)) = 1 \/ Cardinality(Neg(e.a)) = 1), "SinglePosOrNeg")
         h5 == HitIf(h4, con /\ e.e # 0, "Scaled")
-        h6 == HitIf(h5, e.hasExpect, "Expect")
+        h5b == HitIf(h5, con /\ e.off # 0, "Offset")
+        h6 == HitIf(h5b, e.hasExpect, "Expect")
         (* the design model's rational differs from the definition's: cannot happen unless
            the replay file is stale; counted as drift *)
         h7 == HitIf(h6, e.hasExpect /\ con /\ ~RatEq(<<e.xnum, e.xden>>, r), "Drift")
